@@ -3,7 +3,7 @@ import math
 
 import numpy as np
 
-from checks.common import aff, farr, call_warn, is_num
+from checks.common import aff, farr, call_warn, is_num, medium_diagram
 from mc.enumerate import lattice_points, multisets_upto, distinct_permutations
 from oracles import simple as OS
 
@@ -38,6 +38,9 @@ def cases(tier):
         yield {"kind": "row", "i": i}
     for s in SIGMAS:
         yield {"kind": "triples", "sigma": s}
+    for n in ((6, 9, 14) if tier == "quick" else (6, 7, 9, 14, 25, 40)):
+        for k in range(3):
+            yield {"kind": "medium", "n": n, "k": k}
 
 
 def h(ctx, F, G, sigma):
@@ -67,6 +70,22 @@ def run_case(case, ctx):
 
     if case["kind"] == "triples":
         return triples(case, ctx)
+    if case["kind"] == "medium":
+        F = medium_diagram(case["n"], case["k"], False)
+        for n2, k2, lat in ((case["n"], case["k"] + 1, False), (5, case["k"], True), (case["n"] + 3, 0, False)):
+            G = medium_diagram(n2, k2, lat)
+            for sigma in SIGMAS:
+                ctx.state(("medium", case["n"], case["k"], n2, k2, sigma))
+                check_val(ctx, "value-medium", h(ctx, F, G, sigma), F, G, sigma, "medium diagrams")
+                check_val(ctx, "value-medium", h(ctx, G[::-1], F, sigma), G[::-1], F, sigma, "medium diagrams swapped")
+        r = check_val(ctx, "value-medium", h(ctx, F, F[2:] + F[:2], 0.4), F, F[2:] + F[:2], 0.4, "medium diagram vs its rotation")
+        Fd = F[:3] + F + F[1:2]            # exactly repeated points
+        Gd = medium_diagram(case["n"], case["k"] + 2, True)
+        for sigma in (0.4, 10.0):
+            check_val(ctx, "value-medium", h(ctx, Fd, Gd, sigma), Fd, Gd, sigma, "medium diagram with repeated points")
+            check_val(ctx, "value-medium", h(ctx, Fd, F, sigma), Fd, F, sigma, "medium diagram with repeated points vs without")
+        ctx.nontriv("medium_diagram", key=("medium", case["n"], case["k"]))
+        return
     sp = space(ctx.tier)
     F = sp[case["i"]]
     for G in sp:
